@@ -151,6 +151,8 @@ def action_text(act, aid, n):
         return " << vh.TokOf(C, %d, $T0) >>" % aid
     if act == 5:
         return " << vh.Mk($Context, %d, %s) >>" % (aid, L)
+    if act == 7:
+        return " << vh.Sel(C, %d, $10) >>" % aid
     if act == 6:
         # the action text contains printf verbs: it must reach the generated file verbatim
         return " << vh.Pct(C, %d, \"%%s|%%d|%%%%|%%v|%%!\", %s) >>" % (aid, L)
@@ -329,6 +331,11 @@ def rand_syn(rng, terms, nnt=None, max_alts=3, max_len=3, p_empty=0.2, p_error=0
                     continue
                 bd[pos] = (0, nts[i])
             syn[k] = (hd, bd, act, aid2)
+    if acts and rng.random() < 0.15 and len(terms) >= 2:
+        # a long alternative whose action uses a two-digit index ($10)
+        aid += 1
+        body = [rng.choice(terms) for _ in range(rng.randint(11, 13))]
+        syn.append((nts[-1], body, 7, aid))
     if productive and rng.random() < 0.25 and terms:
         # a nullable, directly left-recursive list that FOLLOWS another symbol: `S0 : N x L ; L : L y | empty`
         x, y = rng.choice(terms), rng.choice(terms)
@@ -382,7 +389,12 @@ def conflict_rich_syn(rng, terms):
         # dangling else with extra ambiguity
         syn = [("S0", [a, (0, "S0")]), ("S0", [a, (0, "S0"), b, (0, "S0")]), ("S0", [c]), ("S0", [(0, "S0"), b])]
         rng.shuffle(syn)
-    elif k < 0.9:
+    elif k < 0.86:
+        # the start symbol derives itself: accept/reduce clash, must be refused in both modes
+        syn = rng.choice([[("S0", [(0, "S0")]), ("S0", [a])],
+                          [("S0", [(0, "N1")]), ("S0", [a]), ("N1", [(0, "S0")])],
+                          [("S0", [a, b]), ("S0", [(0, "N1")]), ("N1", [(0, "N2")]), ("N2", [(0, "S0")]), ("N2", [c])]])
+    elif k < 0.93:
         # a nullable non-terminal followed by a non-nullable symbol (exact FIRST/look-ahead sets matter)
         syn = [("S0", [(0, "N1"), c]), ("N1", [(0, "N2"), (0, "N3"), b]), ("N3", [(1, "empty")]), ("N3", [a]), ("N2", [a]), ("N2", [a, c])]
         if rng.random() < 0.5:
